@@ -52,6 +52,11 @@ CLAIMS = {
         "Decides structural necessary conditions only: no user code under a registry lock / thread-local registry borrow (first access with nested linked variables terminates), per-thread cleanup of Send references keyed by origin and decided under the lock, confinement witnesses, create-outside/insert-under-lock with occupied re-check, first registration wins. Two defects found by R1 on the pinned tree were genuine, reproduced and repaired by two fix: commits; R2/R3 on RefSync are genuine, reproduced and recorded as known findings (repair is a design change). Exactly-one-family under all racing first accesses is not decided.",
         "Trusted: rustc nightly MIR and trait solver, factgen extraction, user-code classification with the benign tables in vf/props/c12.py.",
         "DESIGN.md section 3, C12"),
+    "C13": (
+        "MIR rules: dominance order generation -> publish -> invalidate, control-dependence of re-invalidation on the generation comparison, must-pass-through of a latest-value re-load between the regional install and leaving the install loop, scope-guard bracketing of the user Clone, who-may-call for the per-thread region lookup",
+        "Decides structural necessary conditions only: publish-then-invalidate, mismatch retries, validate-after-install, guard brackets Clone, per-thread region resolution / own-slot writes. The validate-after-install violation on the pinned tree was a genuine, reproduced staleness defect and is repaired by a fix: commit. Visibility and ordering over all interleavings are not decided.",
+        "Trusted: rustc nightly MIR, factgen extraction, arc_swap load/store/compare_and_swap recognised by callee name.",
+        "DESIGN.md section 3, C13"),
     "C14": (
         "MIR rules: dominance/must-pass-through for listen -> re-check -> wait and push -> notify, guard liveness (no task run under a queue lock; flag re-read under the handle-list lock; joins outside it), catch_unwind containment of the user closure with send-on-every-path, backward slices for the single processor id, control-dependence of enqueue on a shutdown check",
         "Decides structural necessary conditions only: no-lost-wake-up protocol shape on worker and spawner side, run-once / panic-captured / result-always-sent, one processor id and pin-before-loop, shutdown ordering, no task under a queue lock. The enqueue/shutdown discipline (R5) is violated on the pinned tree: genuine, reproduced (handles hang) and recorded as three known findings; the repair is cross-cutting. Liveness over all schedules is not decided.",
